@@ -167,9 +167,19 @@ pub open spec fn seg_wf(s: Segment) -> bool {
     s.start_offset <= s.current_offset && s.current_offset - s.start_offset < 0x1_0000_0000 && s.end_offset < u64::MAX
 }
 // segments of a partition are kept sorted by start offset, without duplicates
+// (opaque: its two-variable trigger is quadratic in the number of known elements; instances are drawn by lemma_sorted_at)
+#[verifier::opaque]
 pub open spec fn segs_sorted(s: Seq<Segment>) -> bool {
     forall|i: int, j: int| 0 <= i < j < s.len() ==> (#[trigger] s[i]).start_offset < (#[trigger] s[j]).start_offset
 }
+pub proof fn lemma_sorted_at(s: Seq<Segment>, i: int, j: int)
+    requires segs_sorted(s), 0 <= i < j < s.len(),
+    ensures s[i].start_offset < s[j].start_offset,
+{ reveal(segs_sorted); }
+pub proof fn lemma_sorted_unique(s: Seq<Segment>, i: int, j: int)
+    requires segs_sorted(s), 0 <= i < s.len(), 0 <= j < s.len(), s[i].start_offset == s[j].start_offset,
+    ensures i == j,
+{ reveal(segs_sorted); }
 // o is the start offset of one of the first `upto` segments, and that segment is expired at `now`
 pub open spec fn expired_start(segs: Seq<Segment>, upto: int, now: int, o: u64) -> bool {
     exists|i: int| 0 <= i < upto && (#[trigger] segs[i]).start_offset == o && seg_expired(segs[i], now)
@@ -303,6 +313,7 @@ pub proof fn lemma_keep_sorted(s: Seq<Segment>, f: spec_fn(Segment) -> bool)
     ensures segs_sorted(seq_keep(s, f)),
     decreases s.len()
 {
+    reveal(segs_sorted);
     if s.len() > 0 {
         let d = s.drop_last();
         let last = s[s.len() - 1];
@@ -408,6 +419,7 @@ pub proof fn lemma_sorted_strict_is_sorted_by_start(s: Seq<Segment>)
     requires segs_sorted(s),
     ensures sorted_by_key(s, by_start()), sorted_by_key(s, |a0: Segment| a0.start_offset),
 {
+    reveal(segs_sorted);
     assert forall|i: int, j: int| 0 <= i <= j < s.len() implies by_start()(#[trigger] s[i]) <= by_start()(#[trigger] s[j]) by {
         if i < j { assert(s[i].start_offset < s[j].start_offset); }
     }
